@@ -65,6 +65,14 @@ def run_one(ck, tm, tier, ws):
         for v in vs:
             eff = [e for e in v.trace if is_effect(e)]
             if not eff:
+                if v.status == "returned":
+                    # a checked call that comes back without having done anything has to have passed the gate too: a replacement of a
+                    # different type is refused with a panic, not silently ignored
+                    gated = any(c_[0].op in ("str_ne", "str_eq") and {c_[0].args[0], c_[0].args[1]} == {exp, rec} and
+                                ((c_[0].op == "str_ne" and c_[1] == 0) or (c_[0].op == "str_eq" and c_[1] == 1)) for c_ in v.decisions)
+                    ck.ob("R9.1", "%s/%s" % (rn, "effect-free-return-passed-the-gate" if gated else "returns-without-gate"), tm.target, gated,
+                          "a path returns normally without any effect and %s the signature equality on its equal edge%s" % (
+                              "after" if gated else "WITHOUT", "" if gated else ": a structurally different replacement is accepted silently on this path [%s]" % fmt_dec(v)))
                 continue
             first = min(e.idx for e in eff)
             gate = None
